@@ -360,5 +360,487 @@ theorem insertInLeaf_tree (H : Bytes → Bytes) (hH : ∀ m, (H m).length = 32) 
             · cases hm
         · exact Or.inr (Nat.le_trans hpp.fr.size (by simp))
 
+/-! ### helpers for the branch cases -/
+
+theorem lcp_lt : ∀ (key pk : Nibs), pk.isPrefixOf key = false → lcpLen key pk < pk.length
+  | _, [], h => by simp at h
+  | [], _ :: _, _ => by simp [lcpLen]
+  | x :: xs, y :: ys, h => by
+    unfold lcpLen
+    by_cases e : x = y
+    · subst e
+      rw [if_pos rfl]
+      have : ys.isPrefixOf xs = false := by simpa [List.isPrefixOf] using h
+      have := lcp_lt xs ys this
+      simp only [List.length_cons]; omega
+    · rw [if_neg e]; simp
+
+theorem prefix_split {pk key : Nibs} (h : pk.isPrefixOf key = true) : key = pk ++ key.drop pk.length := by
+  obtain ⟨t, ht⟩ := List.isPrefixOf_iff_prefix.mp h
+  rw [← ht]; simp
+
+theorem setChild_self (cs : Nib → Trie) (i : Nib) : setChild cs i (cs i) = cs := by
+  funext m; unfold setChild; split
+  · rename_i e; rw [e]
+  · rfl
+
+theorem kid_frame {H : Bytes → Bytes} {G : Bytes → Bytes → Prop} {S : Nat → Prop} {hp hp' : Heap} {g : Nat}
+    (hf : FR S hp hp') {t : Trie} {k : Node} {l : List Nat} {o : Option Nat}
+    (hS : ∀ x, S x → hp.size ≤ x ∨ ((hp.get x).gen = g ∧ x ∉ l)) (h : KidTI H G hp g t k l o) :
+    KidTI H G hp' g t k l o := by
+  cases o with
+  | none => exact h
+  | some c => exact ⟨h.1, ti_frame hf t false k c l h.2 hS⟩
+
+theorem prepped_sa {hp : Heap} {g : Nat} {cv : Bool} {a : Nat} {hp' : Heap} {b : Nat}
+    (h : Prepped hp g cv a hp' b) : SA hp g a b := by
+  rcases h.place with ⟨e, hg, _⟩ | ⟨e, _, _⟩
+  · rw [e]; exact Or.inl ⟨rfl, hg⟩
+  · rw [e]; exact Or.inr (Nat.le_refl _)
+
+/-- the facts about a branch cell with a footprint without repetition -/
+structure BrFacts (hp : Heap) (g : Nat) (a : Nat) (fp : List Nat) (fps : Nib → List Nat) : Prop where
+  nd : ∀ i, (fps i).Nodup
+  dis : ∀ i j, i ≠ j → ∀ x, x ∈ fps i → x ∉ fps j
+  na : ∀ i, a ∉ fps i
+  sub : ∀ i x, x ∈ fps i → x ∈ fp
+  lt : ∀ i x, x ∈ fps i → x < hp.size
+  own : ∀ i x, x ∈ fps i → (hp.get x).gen = g
+  self : (hp.get a).gen = g → a ∈ fp
+
+theorem brFacts {H : Bytes → Bytes} {G : Bytes → Bytes → Prop} {hp : Heap} {g : Nat} {a : Nat} {fp : List Nat}
+    {fps : Nib → List Nat} {cs : Nib → Trie} {kn : Nib → Node}
+    (hfp : fp = ownL hp g a ++ (List.finRange 16).flatMap fps) (hnd : fp.Nodup)
+    (hno : (hp.get a).gen ≠ g → ∀ i, fps i = [])
+    (hk : ∀ i, KidTI H G hp g (cs i) (kn i) (fps i) ((hp.get a).kids i)) : BrFacts hp g a fp fps := by
+  rw [hfp] at hnd
+  obtain ⟨_, h2, h3⟩ := List.nodup_append.mp hnd
+  obtain ⟨nd, dis⟩ := (nodup_fm_iff fps).mp h2
+  have hmem : ∀ i x, x ∈ fps i → x ∈ (List.finRange 16).flatMap fps :=
+    fun i x hx => List.mem_flatMap.mpr ⟨i, List.mem_finRange i, hx⟩
+  have hfpk : ∀ i x, x ∈ fps i → ∃ c, (hp.get a).kids i = some c ∧ FP hp g (cs i) c (fps i) := by
+    intro i x hx
+    have := hk i
+    cases hkk : (hp.get a).kids i with
+    | none => rw [hkk] at this; rw [this.2.2] at hx; cases hx
+    | some c => rw [hkk] at this; exact ⟨c, rfl, this.2.fp⟩
+  refine ⟨nd, dis, fun i hm => ?_, fun i x hx => ?_, fun i x hx => ?_, fun i x hx => ?_, fun hg => ?_⟩
+  · by_cases hg : (hp.get a).gen = g
+    · exact h3 a (by rw [ownL_own hg]; simp) a (hmem i a hm) rfl
+    · rw [hno hg i] at hm; cases hm
+  · rw [hfp]; exact List.mem_append_right _ (hmem i x hx)
+  · obtain ⟨c, _, hf⟩ := hfpk i x hx
+    exact fp_lt (cs i) c (fps i) hf x hx
+  · obtain ⟨c, _, hf⟩ := hfpk i x hx
+    exact fp_own (cs i) c (fps i) hf x hx
+  · rw [hfp, ownL_own hg]; simp
+
+/-- the family of child footprints of the prepared copy (or the cell itself) of a branch cell -/
+theorem BrFacts.fam {hp : Heap} {g : Nat} {a : Nat} {fp : List Nat} {fps : Nib → List Nat}
+    (h : BrFacts hp g a fp fps) {b : Nat} (hb : (b = a ∧ (hp.get a).gen = g) ∨ hp.size ≤ b) :
+    Fam b (Wr hp fp) fps := by
+  refine ⟨h.nd, h.dis, fun i hm => ?_, fun i x hx => Or.inl (h.sub i x hx)⟩
+  rcases hb with ⟨e, _⟩ | hb
+  · rw [e] at hm; exact h.na i hm
+  · have := h.lt i b hm; omega
+
+/-- the child slots of a branch cell survive writes to the cell itself and to new cells -/
+theorem BrFacts.kids {H : Bytes → Bytes} {G : Bytes → Bytes → Prop} {hp hp' : Heap} {g : Nat} {a : Nat}
+    {fp : List Nat} {fps : Nib → List Nat} (h : BrFacts hp g a fp fps) {cs : Nib → Trie} {kn : Nib → Node}
+    (hf : FR (SA hp g a) hp hp')
+    (hk : ∀ i, KidTI H G hp g (cs i) (kn i) (fps i) ((hp.get a).kids i)) (i : Nib) :
+    KidTI H G hp' g (cs i) (kn i) (fps i) ((hp.get a).kids i) := by
+  refine kid_frame hf (fun x hx => ?_) (hk i)
+  rcases hx with ⟨e, hg⟩ | hx
+  · rw [e]; exact Or.inr ⟨hg, h.na i⟩
+  · exact Or.inl hx
+
+/-- post-condition with an optional root -/
+structure PostT (H : Bytes → Bytes) (G : Bytes → Bytes → Prop) (hp : Heap) (g : Nat) (r : Bool) (fp : List Nat)
+    (a : Nat) (t t' : Trie) (res : Heap × Option Nat × Bool) : Prop where
+  ex : ∃ y, res.2.1 = some y ∧ Out H G hp g r fp res.1 t' y
+  same : res.2.2 = false → res.1 = hp ∧ res.2.1 = some a ∧ t' = t
+
+theorem ti_ne_nil {H : Bytes → Bytes} {G : Bytes → Bytes → Prop} {hp : Heap} {g : Nat} {r : Bool} {t : Trie}
+    {N : Node} {a : Nat} {fp : List Nat} (h : TI H G hp g r t N a fp) : t ≠ .nil := by
+  intro e; rw [e] at h; exact h.rep.elim
+
+theorem insertF_tree (H : Bytes → Bytes) (hH : ∀ m, (H m).length = 32) (G : Bytes → Bytes → Prop) (c : Ctx)
+    (hcH : c.H = H) {g : Nat} (hcg : c.g = g) :
+    ∀ (f : Nat) (hp : Heap) (t : Trie) (N : Node) (a : Nat) (fp : List Nat) (r : Bool) (key : Nibs)
+      (value : Bytes), TI H G hp g r t N a fp → fp.Nodup → (c.troot == some a) = r → RootAbove c hp t →
+      depth t ≤ bigFuel + 1 → key.length < f → ∀ t', t' = Trie.insert t key value →
+      PostT H G hp g r fp a t t' (insertF c f hp (some a) key value)
+  | 0, _, _, _, _, _, _, _, _, _, _, _, _, _, hf, _, _ => absurd hf (Nat.not_lt_zero _)
+  | f + 1, hp, .nil, N, a, fp, r, key, value, h, _, _, _, _, _, _, _ => h.rep.elim
+  | f + 1, hp, .leaf pk lv, N, a, fp, r, key, value, h, hnd, hflav, hra, hd, hf, t', ht' => by
+    have hb : (hp.get a).isBranch = false := h.rep.1
+    have hl := insertInLeaf_tree H hH G c hcH hcg h hflav key value
+    subst ht'
+    unfold insertF
+    simp only [hb, Bool.not_false, if_true]
+    exact ⟨⟨_, rfl, hl.out⟩, fun hf => by
+      obtain ⟨h1, h2, h3⟩ := hl.same hf
+      exact ⟨h1, by rw [h2], h3⟩⟩
+  | f + 1, hp, .branch pk v cs, N, a, fp, r, key, value, h, hnd, hflav, hra, hd, hf, t', ht' => by
+    obtain ⟨hlt, hb, hpk, hv, kn, fps, hN, hfp, hno, hk⟩ := ti_branch_elim h
+    have bf := brFacts hfp hnd hno hk
+    have hprep : ∀ cv, Prepped hp g cv a (prepForMutation c cv hp a).1 (prepForMutation c cv hp a).2 :=
+      fun cv => prep_tree H hH G c hcH hcg cv hlt (fun _ => ⟨_, _, h.rep, h.coh, hd⟩) hflav
+    have hsame : Out H G hp g r fp hp (.branch pk v cs) a :=
+      ⟨⟨N, fp, h, hnd, fun z hz => Or.inl hz⟩, FR.refl _ _⟩
+    unfold insertF
+    simp only [hb, Bool.not_true, Bool.false_eq_true, if_false]
+    rw [hpk]
+    by_cases e1 : key = pk
+    · simp only [if_pos e1]
+      have hspec : t' = .branch pk (some value) cs := by rw [ht', Trie.insert, if_pos e1]
+      by_cases e2 : (hp.get a).mbh = mustBeHashed c.ver value ∧ svEqual (hp.get a).val value = true
+      · rw [if_pos e2]
+        have hvv : v = some value := by
+          have := e2.2; unfold svEqual at this; rw [hv] at this; exact eq_of_beq this
+        refine ⟨⟨a, rfl, ?_⟩, fun _ => ⟨rfl, rfl, by rw [hspec, hvv]⟩⟩
+        rw [hspec, ← hvv]; exact hsame
+      · rw [if_neg e2]
+        have hpp := hprep true
+        generalize prepForMutation c true hp a = p at hpp ⊢
+        obtain ⟨p1, b⟩ := p
+        dsimp only at hpp ⊢
+        have hgetb : (p1.modify b (fun x => { x with mbh := mustBeHashed c.ver value, val := some value })).get b =
+            { p1.get b with mbh := mustBeHashed c.ver value, val := some value } := by
+          rw [Heap.get_modify, if_pos ⟨rfl, hpp.lt⟩]
+        have hfr : FR (SA hp g a) hp
+            (p1.modify b (fun x => { x with mbh := mustBeHashed c.ver value, val := some value })) :=
+          hpp.fr.trans (FR.modify p1 b _ (prepped_sa hpp))
+        refine ⟨⟨b, rfl, ?_⟩, fun hf => Bool.noConfusion hf⟩
+        rw [hspec]; dsimp only
+        refine out_branch (kn := kn) (fps := fps) (hfr.mono (sa_wr bf.self)) (by simpa using hpp.lt)
+          ?_ ?_ ?_ ?_ ?_ ?_ (bf.fam (prepped_sa hpp)) (prepped_wr hpp bf.self)
+        · rw [hgetb]; exact hpp.isBranch.trans hb
+        · rw [hgetb]; exact hpp.pk.trans hpk
+        · rw [hgetb]
+        · rw [hgetb]; exact hpp.dirty
+        · rw [hgetb]; exact hpp.gen
+        · intro i; rw [hgetb]
+          show KidTI H G _ g (cs i) (kn i) (fps i) ((p1.get b).kids i)
+          rw [hpp.kids]; exact bf.kids hfr hk i
+    · simp only [if_neg e1]
+      by_cases e2 : pk.isPrefixOf key = true
+      · simp only [if_pos e2]
+        rcases hdk : key.drop pk.length with _ | ⟨i, rest⟩
+        · exfalso
+          apply e1
+          have := prefix_split e2
+          rw [hdk] at this; simpa using this
+        dsimp only
+        have hspec : t' = .branch pk v (setChild cs i (Trie.insert (cs i) rest value)) := by
+          rw [ht', Trie.insert, if_neg e1, if_pos e2]; simp only [hdk]
+        have hki := hk i
+        cases hkid : (hp.get a).kids i with
+        | none =>
+          dsimp only
+          rw [hkid] at hki
+          obtain ⟨hcsi, _, hfpsi⟩ := hki
+          have hspec' : t' = .branch pk v (setChild cs i (.leaf rest value)) := by
+            rw [hspec, hcsi]; rfl
+          have hltA : a < (hp.alloc (newLeaf c rest value)).1.size := by simp; omega
+          have hgA : (hp.alloc (newLeaf c rest value)).1.get a = hp.get a := Heap.get_alloc_lt hlt
+          have h1 : TI H G (hp.alloc (newLeaf c rest value)).1 g r (.branch pk v cs) N a fp :=
+            ti_frame (FR.alloc (fun _ => False) hp _) _ _ _ _ _ h (fun x hx => hx.elim)
+          have hpp := prep_tree H hH G c hcH hcg true hltA (fun _ => ⟨_, _, h1.rep, h1.coh, hd⟩) hflav
+          generalize prepForMutation c true (hp.alloc (newLeaf c rest value)).1 a = p at hpp ⊢
+          obtain ⟨p1, b⟩ := p
+          dsimp only at hpp ⊢
+          simp only [Heap.alloc_snd]
+          have sa1 : ∀ x, SA (hp.alloc (newLeaf c rest value)).1 g a x → SA hp g a x := by
+            intro x hx
+            rcases hx with ⟨e, hg⟩ | hx
+            · rw [hgA] at hg; exact Or.inl ⟨e, hg⟩
+            · right; simp at hx; omega
+          have sab : SA hp g a b := sa1 b (prepped_sa hpp)
+          have hgetb : (p1.modify b (fun x => { x with kids := setKid x.kids i (some hp.size) })).get b =
+              { p1.get b with kids := setKid (p1.get b).kids i (some hp.size) } := by
+            rw [Heap.get_modify, if_pos ⟨rfl, hpp.lt⟩]
+          have hfr1 : FR (SA (hp.alloc (newLeaf c rest value)).1 g a) (hp.alloc (newLeaf c rest value)).1
+              (p1.modify b (fun x => { x with kids := setKid x.kids i (some hp.size) })) :=
+            hpp.fr.trans (FR.modify p1 b _ (prepped_sa hpp))
+          have hfr : FR (SA hp g a) hp
+              (p1.modify b (fun x => { x with kids := setKid x.kids i (some hp.size) })) :=
+            (FR.alloc _ hp _).trans (hfr1.mono sa1)
+          have hne : hp.size ≠ b := by
+            rcases hpp.place with ⟨e, _, _⟩ | ⟨e, _, _⟩
+            · rw [e]; omega
+            · rw [e]; simp
+          refine ⟨⟨b, rfl, ?_⟩, fun hf => Bool.noConfusion hf⟩
+          rw [hspec']; dsimp only
+          refine out_branch (kn := upd kn i ?KB2) (fps := upd fps i [hp.size])
+            (hfr.mono (sa_wr bf.self)) (by simpa using hpp.lt)
+            ?_ ?_ ?_ ?_ ?_ ?_ ?_ (sa_wr bf.self b sab)
+          rotate_left
+          · rw [hgetb]; exact hpp.isBranch.trans (by rw [hgA]; exact hb)
+          · rw [hgetb]; exact hpp.pk.trans (by rw [hgA]; exact hpk)
+          · rw [hgetb]; exact hpp.val rfl |>.trans (by rw [hgA]; exact hv)
+          · rw [hgetb]; exact hpp.dirty
+          · rw [hgetb]; exact hpp.gen
+          · intro m; rw [hgetb]
+            show KidTI H G _ g (setChild cs i (.leaf rest value) m) _ _
+              (setKid (p1.get b).kids i (some hp.size) m)
+            rw [hpp.kids, hgA]
+            refine kidTI_upd (fun m _ => bf.kids hfr hk m) (kid_frame hfr1 (fun x hx => ?_)
+              (kidTI_leaf (hp := (hp.alloc (newLeaf c rest value)).1) (b := hp.size) (by simp) ?_ ?_ ?_ ?_ ?_ ?_)) m
+            · rcases hx with ⟨e, hg⟩ | hx
+              · refine Or.inr ⟨by rw [e]; exact hg, ?_⟩
+                rw [e]; simp; omega
+              · exact Or.inl hx
+            · rw [Heap.get_alloc_self]; rfl
+            · rw [Heap.get_alloc_self]; rfl
+            · rw [Heap.get_alloc_self]; rfl
+            · intro m; rw [Heap.get_alloc_self]; rfl
+            · rw [Heap.get_alloc_self]; rfl
+            · rw [Heap.get_alloc_self]; exact hcg
+          · refine (bf.fam sab).set i [hp.size] (by simp) (fun x hx => ?_)
+            rw [List.mem_singleton.mp hx]
+            exact ⟨Or.inr (Nat.le_refl _), hne, fun m _ hm => Nat.lt_irrefl _ (bf.lt m _ hm)⟩
+        | some ch =>
+          dsimp only
+          rw [hkid] at hki
+          obtain ⟨hcsne, htich⟩ := hki
+          have hdlt : depth (cs i) < depth (.branch pk v cs) := depth_kid pk v cs i
+          have hflavch : (c.troot == some ch) = false := by
+            cases htr : c.troot == some ch with
+            | false => rfl
+            | true =>
+              exfalso
+              have := hra ch (cs i) (kn i) (eq_of_beq htr) htich.rep
+              omega
+          have hlen : rest.length < f := by
+            have := congrArg List.length hdk
+            simp only [List.length_drop, List.length_cons] at this
+            omega
+          have ih := insertF_tree H hH G c hcH hcg f hp (cs i) (kn i) ch (fps i) false rest value htich
+            (bf.nd i) hflavch (rootAbove_mono hra (Nat.le_of_lt hdlt)) (by omega) hlen _ rfl
+          generalize insertF c f hp (some ch) rest value = res at ih ⊢
+          obtain ⟨h1, y', mflag⟩ := res
+          dsimp only at ih ⊢
+          cases mflag with
+          | false =>
+            simp only [Bool.not_false, if_true]
+            obtain ⟨e1', _, e3'⟩ := ih.same rfl
+            dsimp only at e1' e3'
+            have hsp : t' = .branch pk v cs := by rw [hspec, e3', setChild_self]
+            refine ⟨⟨a, rfl, ?_⟩, fun _ => ⟨e1', rfl, hsp⟩⟩
+            dsimp only
+            rw [hsp, e1']; exact hsame
+          | true =>
+            simp only [Bool.not_true, Bool.false_eq_true, if_false]
+            obtain ⟨y, hy, ⟨Ni, fpi, hti, hndi, hbdi⟩, hfri⟩ := ih.ex
+            dsimp only at hy hti hfri
+            subst hy
+            have hnwa : ¬ Wr hp (fps i) a := by
+              intro hw
+              rcases hw with hw | hw
+              · exact bf.na i hw
+              · omega
+            obtain ⟨hs1, _, _⟩ := hfri.strip hlt hnwa
+            have hlt1 : a < h1.size := Nat.lt_of_lt_of_le hlt hfri.size
+            have hpp := prep_tree H hH G c hcH hcg true hlt1 (r := r) (fun hg => by
+              have hg0 : (hp.get a).gen ≠ g := by rw [← strip_gen hs1]; exact hg
+              have hnil := hno hg0 i
+              have h1' := ti_frame hfri _ _ _ _ _ h (fun x hx => by
+                rcases hx with hx | hx
+                · rw [hnil] at hx; cases hx
+                · exact Or.inl hx)
+              exact ⟨_, _, h1'.rep, h1'.coh, hd⟩) hflav
+            generalize prepForMutation c true h1 a = p at hpp ⊢
+            obtain ⟨p1, b⟩ := p
+            dsimp only at hpp ⊢
+            have sa1 : ∀ x, SA h1 g a x → SA hp g a x := by
+              intro x hx
+              rcases hx with ⟨e, hg⟩ | hx
+              · rw [strip_gen hs1] at hg; exact Or.inl ⟨e, hg⟩
+              · exact Or.inr (Nat.le_trans hfri.size hx)
+            have sab : SA hp g a b := sa1 b (prepped_sa hpp)
+            have hgetb : (p1.modify b (fun x => { x with kids := setKid x.kids i (some y) })).get b =
+                { p1.get b with kids := setKid (p1.get b).kids i (some y) } := by
+              rw [Heap.get_modify, if_pos ⟨rfl, hpp.lt⟩]
+            have hfr1 : FR (SA h1 g a) h1 (p1.modify b (fun x => { x with kids := setKid x.kids i (some y) })) :=
+              hpp.fr.trans (FR.modify p1 b _ (prepped_sa hpp))
+            have hfr : FR (fun x => x ∈ fps i ∨ SA hp g a x) hp
+                (p1.modify b (fun x => { x with kids := setKid x.kids i (some y) })) :=
+              (hfri.mono (fun x hx => by
+                rcases hx with hx | hx
+                · exact Or.inl hx
+                · exact Or.inr (Or.inr hx))).trans (hfr1.mono (fun x hx => Or.inr (sa1 x hx)))
+            have hwr : ∀ x, (x ∈ fps i ∨ SA hp g a x) → Wr hp fp x := by
+              intro x hx
+              rcases hx with hx | hx
+              · exact Or.inl (bf.sub i x hx)
+              · exact sa_wr bf.self x hx
+            refine ⟨⟨b, rfl, ?_⟩, fun hf => Bool.noConfusion hf⟩
+            rw [hspec]; dsimp only
+            refine out_branch (kn := upd kn i Ni) (fps := upd fps i fpi)
+              (hfr.mono hwr) (by simpa using hpp.lt)
+              ?_ ?_ ?_ ?_ ?_ ?_ ?_ (sa_wr bf.self b sab)
+            · rw [hgetb]; exact hpp.isBranch.trans ((strip_isBranch hs1).trans hb)
+            · rw [hgetb]; exact hpp.pk.trans ((strip_pk hs1).trans hpk)
+            · rw [hgetb]; exact (hpp.val rfl).trans ((strip_val hs1).trans hv)
+            · rw [hgetb]; exact hpp.dirty
+            · rw [hgetb]; exact hpp.gen
+            · intro m; rw [hgetb]
+              show KidTI H G _ g (setChild cs i (Trie.insert (cs i) rest value) m) _ _
+                (setKid (p1.get b).kids i (some y) m)
+              rw [hpp.kids, strip_kids hs1]
+              have hkidi : KidTI H G (p1.modify b (fun x => { x with kids := setKid x.kids i (some y) })) g
+                  (Trie.insert (cs i) rest value) Ni fpi (some y) := by
+                refine ⟨ti_ne_nil hti, ti_frame hfr1 _ _ _ _ _ hti (fun x hx => ?_)⟩
+                rcases hx with ⟨e, hg⟩ | hx
+                · refine Or.inr ⟨by rw [e]; exact hg, fun hm => hnwa ?_⟩
+                  rw [e] at hm; exact hbdi a hm
+                · exact Or.inl hx
+              refine kidTI_upd (fun m hm => kid_frame hfr (fun x hx => ?_) (hk m)) hkidi m
+              rcases hx with hx | ⟨e, hg⟩ | hx
+              · exact Or.inr ⟨bf.own i x hx, bf.dis i m (fun e => hm e.symm) x hx⟩
+              · rw [e]; exact Or.inr ⟨hg, bf.na m⟩
+              · exact Or.inl hx
+            · refine (bf.fam sab).set i fpi hndi (fun x hx => ⟨?_, ?_, fun m hm hxm => ?_⟩)
+              · rcases hbdi x hx with h' | h'
+                · exact Or.inl (bf.sub i x h')
+                · exact Or.inr h'
+              · intro e
+                have hxlt : x < h1.size := fp_lt _ _ _ hti.fp x hx
+                rcases hpp.place with ⟨eb, _, _⟩ | ⟨eb, _, _⟩
+                · rw [e, eb] at hx; exact hnwa (hbdi a hx)
+                · omega
+              · rcases hbdi x hx with h' | h'
+                · exact bf.dis i m (fun e => hm e.symm) x h' hxm
+                · have := bf.lt m x hxm; omega
+      · simp only [if_neg e2]
+        have e2' : pk.isPrefixOf key = false := by
+          cases hh : pk.isPrefixOf key with
+          | false => rfl
+          | true => exact absurd hh e2
+        have hcl := lcp_lt key pk e2'
+        rcases hdr : pk.drop (lcpLen key pk) with _ | ⟨oi, orest⟩
+        · exfalso
+          have := List.drop_eq_nil_iff.mp hdr
+          omega
+        dsimp only
+        have hpp := hprep true
+        generalize prepForMutation c true hp a = p at hpp ⊢
+        obtain ⟨p1, b⟩ := p
+        dsimp only at hpp ⊢
+        have hwb : Wr hp fp b := prepped_wr hpp bf.self
+        have hbsz : b < p1.size := hpp.lt
+        -- the old branch, with its shortened partial key, as a child slot of any later heap
+        have hchild : ∀ hp', FR (SA hp g a) hp hp' → b < hp'.size →
+            hp'.get b = { p1.get b with pk := orest } →
+            KidTI H G hp' g (.branch orest v cs)
+              (.branch (nibBytes orest) v (hp'.get b).mbh ((List.finRange 16).map kn))
+              (b :: (List.finRange 16).flatMap fps) (some b) := by
+          intro hp' hfr hlt' hget
+          refine ⟨fun e => (nomatch e), ?_⟩
+          have hgen : (hp'.get b).gen = g := by rw [hget]; exact hpp.gen
+          have := @ti_branch_cell H G hp' g false b orest v cs kn fps hlt'
+            (by rw [hget]; exact hpp.isBranch.trans hb) (by rw [hget])
+            (by rw [hget]; exact (hpp.val rfl).trans hv) (by rw [hget]; exact hpp.dirty) hgen
+            (fun m => by
+              rw [hget]
+              show KidTI H G hp' g (cs m) (kn m) (fps m) ((p1.get b).kids m)
+              rw [hpp.kids]; exact bf.kids hfr hk m)
+          rw [ownL_own hgen] at this
+          exact this
+        have hfr2 : FR (SA hp g a) hp (p1.modify b (fun x => { x with pk := orest })) :=
+          hpp.fr.trans (FR.modify p1 b _ (prepped_sa hpp))
+        have hfamb := (bf.fam (prepped_sa hpp)).nodup
+        have hsub : ∀ x, x ∈ b :: (List.finRange 16).flatMap fps → Wr hp fp x ∧ x < p1.size := by
+          intro x hx
+          rcases List.mem_cons.mp hx with e | hx
+          · rw [e]; exact ⟨hwb, hbsz⟩
+          · obtain ⟨m, _, hm⟩ := List.mem_flatMap.mp hx
+            exact ⟨Or.inl (bf.sub m x hm), Nat.lt_of_lt_of_le (bf.lt m x hm) hpp.fr.size⟩
+        by_cases e3 : key.length ≤ lcpLen key pk
+        · simp only [if_pos e3]
+          have hspec : t' = .branch (key.take (lcpLen key pk)) (some value)
+              (setChild noChildren oi (.branch orest v cs)) := by
+            rw [ht', Trie.insert, if_neg e1]
+            simp only [e2', Bool.false_eq_true, if_false, hdr, if_pos e3]
+          have hget : ∀ n, ((p1.modify b (fun x => { x with pk := orest })).alloc n).1.get b =
+              { p1.get b with pk := orest } := fun n => by
+            rw [Heap.get_alloc_lt (by simpa using hbsz), Heap.get_modify, if_pos ⟨rfl, hbsz⟩]
+          refine ⟨⟨_, rfl, ?_⟩, fun hf => Bool.noConfusion hf⟩
+          rw [hspec]; dsimp only
+          refine out_branch (kn := upd (fun _ => Node.empty) oi ?KB31)
+            (fps := upd (fun _ => []) oi (b :: (List.finRange 16).flatMap fps))
+            ((hfr2.trans (FR.alloc _ _ _)).mono (sa_wr bf.self)) (by simp)
+            ?_ ?_ ?_ ?_ ?_ ?_ ?_ (Or.inr (Nat.le_trans hpp.fr.size (by simp)))
+          rotate_left
+          · simp only [Heap.alloc_snd, Heap.get_alloc_self]; try rfl
+          · simp only [Heap.alloc_snd, Heap.get_alloc_self]; try rfl
+          · simp only [Heap.alloc_snd, Heap.get_alloc_self]; try rfl
+          · simp only [Heap.alloc_snd, Heap.get_alloc_self]; try rfl
+          · simp only [Heap.alloc_snd, Heap.get_alloc_self]; exact hcg
+          · intro m
+            simp only [Heap.alloc_snd, Heap.get_alloc_self]
+            exact kidTI_upd (fun m _ => kidTI_none H G _ g m)
+              (hchild _ (hfr2.trans (FR.alloc _ _ _)) (by simp; omega) (hget _)) m
+          · refine (Fam.nil _ _).set oi _ hfamb (fun x hx => ?_)
+            obtain ⟨h1, h2⟩ := hsub x hx
+            refine ⟨h1, Nat.ne_of_lt ?_, fun _ _ hm => (nomatch hm)⟩
+            simp only [Heap.alloc_snd, Heap.size_modify]; exact h2
+        · simp only [if_neg e3]
+          rcases hdk : key.drop (lcpLen key pk) with _ | ⟨j, krest⟩
+          · exfalso
+            have := List.drop_eq_nil_iff.mp hdk
+            omega
+          dsimp only
+          have hspec : t' = .branch (key.take (lcpLen key pk)) none
+              (setChild (setChild noChildren oi (.branch orest v cs)) j (.leaf krest value)) := by
+            rw [ht', Trie.insert, if_neg e1]
+            simp only [e2', Bool.false_eq_true, if_false, hdr, if_neg e3, hdk]
+          have hget : ∀ n n', (((p1.modify b (fun x => { x with pk := orest })).alloc n).1.alloc n').1.get b =
+              { p1.get b with pk := orest } := fun n n' => by
+            rw [Heap.get_alloc_lt (by simp only [Heap.size_alloc, Heap.size_modify]; omega),
+              Heap.get_alloc_lt (by simpa using hbsz), Heap.get_modify, if_pos ⟨rfl, hbsz⟩]
+          have hgl : ∀ n', (((p1.modify b (fun x => { x with pk := orest })).alloc (newLeaf c krest value)).1.alloc
+              n').1.get p1.size = newLeaf c krest value := fun n' => by
+            rw [Heap.get_alloc_lt (by simp)]
+            have : p1.size = (p1.modify b (fun x => { x with pk := orest })).size := by simp
+            rw [this, Heap.get_alloc_self]
+          refine ⟨⟨_, rfl, ?_⟩, fun hf => Bool.noConfusion hf⟩
+          rw [hspec]; dsimp only
+          refine out_branch (kn := upd (upd (fun _ => Node.empty) oi ?KB32) j ?KB33)
+            (fps := upd (upd (fun _ => []) oi (b :: (List.finRange 16).flatMap fps)) j [p1.size])
+            (((hfr2.trans (FR.alloc _ _ _)).trans (FR.alloc _ _ _)).mono (sa_wr bf.self)) (by simp)
+            ?_ ?_ ?_ ?_ ?_ ?_ ?_ (Or.inr (Nat.le_trans hpp.fr.size (by simp)))
+          rotate_left; rotate_left
+          · simp only [Heap.alloc_snd, Heap.get_alloc_self]; try rfl
+          · simp only [Heap.alloc_snd, Heap.get_alloc_self]; try rfl
+          · simp only [Heap.alloc_snd, Heap.get_alloc_self]; try rfl
+          · simp only [Heap.alloc_snd, Heap.get_alloc_self]; try rfl
+          · simp only [Heap.alloc_snd, Heap.get_alloc_self]; exact hcg
+          · intro m
+            simp only [Heap.alloc_snd, Heap.get_alloc_self, Heap.size_modify]
+            refine kidTI_upd (fun m _ => kidTI_upd (fun m _ => kidTI_none H G _ g m)
+              (hchild _ ((hfr2.trans (FR.alloc _ _ _)).trans (FR.alloc _ _ _))
+                (by simp only [Heap.size_alloc, Heap.size_modify]; omega) (hget _ _)) m)
+              (kidTI_leaf ?_ ?_ ?_ ?_ ?_ ?_ ?_) m
+            · simp only [Heap.size_alloc, Heap.size_modify]; omega
+            · rw [hgl]; rfl
+            · rw [hgl]; rfl
+            · rw [hgl]; rfl
+            · intro m; rw [hgl]; rfl
+            · rw [hgl]; rfl
+            · rw [hgl]; exact hcg
+          · refine ((Fam.nil _ _).set oi _ hfamb (fun x hx => ?_)).set j [p1.size] (by simp) (fun x hx => ?_)
+            · obtain ⟨h1, h2⟩ := hsub x hx
+              refine ⟨h1, Nat.ne_of_lt ?_, fun _ _ hm => (nomatch hm)⟩
+              simp only [Heap.alloc_snd, Heap.size_alloc, Heap.size_modify]; omega
+            · rw [List.mem_singleton.mp hx]
+              refine ⟨Or.inr hpp.fr.size, Nat.ne_of_lt (by simp), fun m _ hm => ?_⟩
+              unfold upd at hm
+              split at hm
+              · have := (hsub _ hm).2; omega
+              · cases hm
+
 end TrieHeap
 end Gossamer
